@@ -61,26 +61,14 @@ Definition check_case (c : case) : N :=
       let ss := split_segs stream segs in
       let spec := spec_b k pp line stream cwait ce ut reply ue o_up o_cl in
       let region :=
-        if region_ws_split k reply rseg1 then Some 3
-        else if region_half_close cwait ce then Some 2
+        if region_half_close cwait ce then Some 2
         else None in
       let agrees e := Bool.eqb conn (e_conn e)
                       && within o_up (e_up e) (e_up_lo e) (nlen' (e_up e))
                       && within o_cl (e_cl e) (e_cl_lo e) (e_cl_hi e) in
       match scenario_expect k pp line ss fin cwait ce ut reply rseg1 whead ue with
       | Ok e =>
-          let v := verdict (agrees e) spec region (e_conn e && (0 <? nlen' (e_up e))) in
-          (* a case that lies in two open regions (split 101 AND half-close): an implementation in
-             which only the first defect has been repaired differs from the model and still
-             fails the spec, because of the second one.  That is the second finding, not a new
-             violation: judge it against the model with the first defect repaired (handshake
-             reply taken as unsplit). *)
-          if (v =? v_disagree_spec_fails) && region_ws_split k reply rseg1 && region_half_close cwait ce then
-            match scenario_expect k pp line ss fin cwait ce ut reply 0 whead ue with
-            | Ok e' => if agrees e' then v_known 2 else v
-            | _ => v
-            end
-          else v
+          verdict (agrees e) spec region (e_conn e && (0 <? nlen' (e_up e)))
       | _ => verdict false spec region true      (* the code neither panics nor runs out of fuel here *)
       end
   | CBulk k pp is4 caddr saddr cport sport head hsegs n conn o_head o_n o_prefix o_clean =>
